@@ -542,7 +542,7 @@ pub fn load_and_judge(seed: u64, which: &str) -> (Layout, Vec<(String, String)>)
 
 pub fn run(rep: &mut Report, cfg: &Cfg, which: &'static str) {
     let mut rng = cfg.rng(which);
-    let n = cfg.share(cfg.n(3_000, 150_000));
+    let n = cfg.share(cfg.n(3_000, 600_000));
     for _ in 0..n {
         let seed = rng.next();
         let (l, findings) = load_and_judge(seed, which);
